@@ -41,11 +41,20 @@ SPEC = {
                 'Go sort.SliceStable / sort.Slice are deterministic functions of their input slice',
                 'the effect of randomized map iteration is sampled by repetition on fresh instances (16 per case), not controlled'],
     'assumptions': ['the repetition harness can only witness order dependence that shows within 16 fresh evaluations; the theorems carry the unbounded claim'],
-    'modelled': 'GetConsensusMap / minObservation.GetValid iteration order, sort-before-encode, last-writer-wins result maps, GetTransmissionSchedule, '
-                'the %v identity of time.Time; the remaining plumbing of Plugin.Outcome is covered by the repetition harness only',
-    'level_text': 'Proof: 9 Coq theorems — consensus maps sorted by key are independent of map iteration order and of vote arrival order (all maps, all '
-                  'permutations); sorted outputs on unique keys are canonical; repaired GetValid is order independent and exact; schedule is order independent; '
-                  'UTC-normalised timestamp identity is zone independent; pre-repair functions refuted by witness (F17, F25). Correspondence: commit and execute '
+    'modelled': 'WHOLE OUTCOME of both plugins (Model/DeterminismSys.v) as a function of (previous outcome, query, ordered attributed observations, configuration) and of a runtime '
+                '= the order in which the Go runtime ranges over every internally built map: commit = aggregate -> getConsensusObservation -> merkle-root state machine (select / build / wait) '
+                '-> Outcome.Sort (both variants of the off-ramp threshold, before / after the repair of F26; which one the code has is found by computation), token-price and chain-fee Outcome, discovery Outcome (composition of the C01/C03/C04/C14 models); execute = the five merges over minObservation '
+                '(cache, GetValid in ascending id order, last-writer-wins maps) -> getCommitReportsOutcome / getMessagesOutcome / getFilterOutcome (C08 report builder) -> newSortedOutcome; '
+                'Reports = (outcome, GetTransmissionSchedule of the role map). Plus the seams: GetConsensusMap / GetValid iteration order, sort-before-encode, the %v identity of time.Time. '
+                'The canon functions have no own-oracle-id argument. Not modelled: JSON text layer (C20), decoding, the discovery step inside the execute plugin (same function as commit\'s), goroutines (none are started in Outcome/Reports)',
+    'level_text': 'Proof: 27 Coq statements. Whole outcome (for all inputs, all runtimes): C10_commit_outcome_deterministic — merkle-root outcome (type, intervals, roots, off-ramp numbers, attempts, '
+                  'signatures, RMN config), token prices, gas prices and discovery address maps are equal for every iteration order of every map in the observations (fChain, fee components, native prices, '
+                  'fee / token updates, address maps), in the configuration (TokenInfo, FeeInfo) and of every internally built map; no hypothesis on the observations. C10_exec_outcome_deterministic — '
+                  'the three execute states incl. the report builder, under re-ordering of CommitReports / Messages / TokenData / Nonces at both map levels, fChain, every minObservation cache and the '
+                  'merged observation; hypothesis: ids faithful (sha3 collision free) — shown necessary by two witnesses; NO unique-sort-key hypothesis: consensus does not give unique keys (witness) '
+                  'but stable sorts keep ties in id order (C10_exec_dupkey_refuted: with pre-F17 GetValid the outcome differs). C10_*_reports_deterministic / C10_schedule_role_map_only — schedule '
+                  'depends on the role map only. Concrete 4-oracle rounds (all maps reversed + reversed runtime) as non-vacuity examples. Seams as before (9 theorems, F17 / F25 refutations). '
+                  'Correspondence: the composed parts are the models judged by C04_round / C01 / C14 / C07 / C08 sinks (C10_commit_parts_are_the_judged_models); commit and execute '
                   'Plugin.Outcome + Reports evaluated repeatedly on fresh instances / own ids / time zones must yield exactly one result per input.',
     'level_note': 'Trusted: Coq kernel, the model of the order-sensitive seams, libocr input agreement. The tie to the code is a repetition (sampling) harness for '
                   'map-order effects; goroutine timing does not enter Outcome/Reports (no goroutines are started there). No axioms.',
